@@ -463,6 +463,54 @@ def r10_listing_data_is_configuration(chk, prog, rule='R10'):
     chk.require(n >= 8, 'writes of the listing data found: %d' % n)
 
 
+def r11_captions(chk, prog, rule='R11'):
+    """the caption above the mandatory arguments is the mandatory caption: printArguments() streams one caption member
+    on the mandatory pass and another one on the optional pass; setCaption( mandatory, optional) assigns its FIRST
+    parameter to the former and its SECOND to the latter, each under the null test of that same parameter"""
+    AD = 'celma::prog_args::detail::ArgumentDesc'
+    f = prog.one(AD, 'printArguments')
+    cfg = f.cfg
+    pm = [p['name'] for p in f.params if 'bool' in p['t']][0]
+    from ..rules import implied_edges
+    on_m = implied_edges(f, lambda x: x.get('k') == 'DeclRefExpr' and x['ref'].get('name') == pm, True)
+    on_o = implied_edges(f, lambda x: x.get('k') == 'DeclRefExpr' and x['ref'].get('name') == pm, False)
+    cap = {'m': set(), 'o': set()}
+    for c in f.calls():
+        if c.get('k') == 'CXXOperatorCallExpr' and c.get('op') == '<<' and len(call_args(c)) == 2:
+            fld = field_name(call_args(c)[1])
+            if fld and 'aption' in fld:
+                pos = cfg.position(c)
+                if any(b in cfg.succ[a] and cfg.guarded_by_edge(pos, a, cfg.succ[a].index(b)) for a, b in on_m):
+                    cap['m'].add(fld)
+                if any(b in cfg.succ[a] and cfg.guarded_by_edge(pos, a, cfg.succ[a].index(b)) for a, b in on_o):
+                    cap['o'].add(fld)
+    ok = len(cap['m']) == 1 and len(cap['o']) == 1 and cap['m'] != cap['o']
+    chk.check(ok, rule, f.name, 'the two passes print two different captions, each on its own pass', f.loc(),
+              'mandatory pass: %s, optional pass: %s' % (sorted(cap['m']), sorted(cap['o'])))
+    if not ok:
+        return
+    want = [next(iter(cap['m'])), next(iter(cap['o']))]
+    g = prog.one(AD, 'setCaption')
+    for i, p_ in enumerate(g.params[:2]):
+        asg = []
+        for x in g.walk():
+            if x.get('k') in CALL_KINDS and field_name(object_of(x) if x.get('k') == 'CXXMemberCallExpr' else
+                                                    (call_args(x)[0] if call_args(x) else None)) and \
+                    any(mentions_var(a, p_['name']) for a in call_args(x)):
+                tgt = field_name(object_of(x)) if x.get('k') == 'CXXMemberCallExpr' else field_name(call_args(x)[0])
+                if tgt and 'aption' in tgt:
+                    asg.append((x, tgt))
+        okp = len(asg) == 1 and asg[0][1] == want[i]
+        if okp:
+            pos = g.cfg.position(asg[0][0])
+            nn = implied_edges(g, lambda x: x.get('k') == 'BinaryOperator' and x.get('op') == '!=' and
+                               mentions_var(x, p_['name']), True)
+            okp = any(b in g.cfg.succ[a] and g.cfg.guarded_by_edge(pos, a, g.cfg.succ[a].index(b)) for a, b in nn)
+        chk.check(okp, rule, g.name, 'parameter %d of setCaption() sets the caption of the %s arguments' % (
+            i + 1, ('mandatory', 'optional')[i]), g.loc(), 'it sets %s, the %s pass prints %s' % (
+                [t for _, t in asg], ('mandatory', 'optional')[i], want[i]))
+
+
 def r4_one_settings_object(chk, prog):
     """'visible under the CURRENT settings': the usage settings (print hidden / deprecated, short-only / long-only)
     live in one UsageParams object per handler family; the arguments that change them at run time write into that
@@ -540,6 +588,8 @@ def run(chk):
     r7_extras(chk, prog)
     chk.rule('R10', 'checks, constraints and flags listed in the usage are changed by the definition-time API only', 8)
     r10_listing_data_is_configuration(chk, prog)
+    chk.rule('R11', 'each pass prints its own caption; setCaption() sets them in the documented order', 3)
+    r11_captions(chk, prog)
     chk.rule('R9', 'isMandatory/isHidden/isDeprecated report the configured properties', 7)
     r9_property_getters(chk, prog)
     chk.rule('R8', 'every display setting is switched by the argument / start flag named after it', 15)
